@@ -11,7 +11,7 @@ import re
 
 import types
 
-import c02extra
+from checks import c02extra
 import emit
 import t1
 import vlib
